@@ -24,7 +24,8 @@ SMILES_FRAGS = [
     "[O-]", "[Fe+3]", "[Fe+++]", "[Cu-3]", "[N+]", "[n+]", "[se]", "[te]", "[as]", "[si]", "[al]", "[Si]", "[H]", "[2H]", "[HH]", "[C:1]",
     "[CH2:12]", "(", ")", "()", "((", "))", "(C)", "(=O)", ".", "..", "-", "=", "#", ":", "/", "\\", "$", "*", "[*]", "->", "<-", "~", "1", "2",
     "3", "0", "9", "%10", "%11", "%99", "%100", "%1", "%", "%%", "%ab", "%0a", "=1", "-1", ":1", "/1", "\\1", "#1", "C1", "C11", "C12", "c1ccccc1",
-    "C1CC1", "C=1CC1", "C=1CC-1", "C1CC=1", "C/1CC\\1", "F:F", "C:C", "c:c", "c-c", "c=c", "[c-]", "[c+]", "[cH-]", "[c]", "[n-]", "[o+]", "[b-]",
+    "C1CC1", "C=1CC1", "C=1CC-1", "C1CC=1", "C/1CC\\1", "F:F", "F:1CC1", "F1CC:1", "Cl:1CCC:1", "[Na]:1CC1", "C(F:1)CC1", "C1CC.C", "C1.C",
+    "OC1CC.[Na+]", "C%12CC.O", "C(.C)", "C.(C)", "C(C.C)", "C1CC.C1",  "C:C", "c:c", "c-c", "c=c", "[c-]", "[c+]", "[cH-]", "[c]", "[n-]", "[o+]", "[b-]",
     "[", "]", "[]", "[[C]]", "[C", "C]", "[C@@@H]", "[C@TH1]", "[C@SP1]", "[C@@H2]", "[CH10]", "[C+0]", "[C-0]", "[C++++++]", "[C+-]", "[C+1+1]",
     "[CH]", "[CH1]", "[CHH]", "[H+]", "[Xx]", "[xx]", "[cl]", "[CL]", "[Uue]", "[12]", "[C12]", "[12C12]", "[Cu@OH1]", "[co]", "[Co]", " ", "\n",
     "\t", "\x00", "C C", "C\n", "\u00b2", "\uff11", "\u0661", "[\uff11\uff13C]", "[CH\uff12]", "[C+\uff11]", "[C:\uff11]", "%\uff11\uff12", "\u0421",
